@@ -46,9 +46,15 @@ def generate(tier, rng):
             table[r.choice(NAMES)] = r.choice(VALUES)
         env = gens.env_field(aliases=table, exported={"HOME": "/h"})
         ops = []
+        # one case in three is a LIFE CYCLE of one or two names: define, use, re-define or remove, define again, use again
+        # (what a name means is what the table says NOW, however often it was used or removed before)
+        cyc = [r.choice(NAMES) for _ in range(1 + r.below(2))] if r.chance(1, 3) else None
         for _ in range(1 + r.below(20)):
             k = r.below(8)
             nm = r.choice(NAMES)
+            if cyc is not None:
+                nm = r.choice(cyc)
+                k = r.choice([0, 1, 3, 6, 6, 6, 5])
             v = r.choice(VALUES)
             if k <= 2:
                 q = r.choice(["'%s'", '"%s"', "%s"])
@@ -61,10 +67,10 @@ def generate(tier, rng):
                 ops.append("alias")
             elif k == 5:
                 ops.append("alias %s" % nm)
-            elif k == 6 and r.below(3) == 0:
+            elif k == 6 and cyc is None and r.below(3) == 0:
                 ops.append("unset %s" % r.choice(["ls", "ll", "g", "x-y", "A_1", "wc", "foo"]))      # removes variables / functions, never an alias
             elif k == 6:
-                ops.append("use %s -x %s | %s a" % (nm, r.choice(NAMES), r.choice(NAMES)))
+                ops.append("use %s -x %s | %s a" % (nm, r.choice(NAMES), r.choice(cyc if cyc is not None else NAMES)))
             else:
                 ops.append(r.choice(["alias a b c", "unalias", "alias =x", "alias x=", "alias 'q r'=1", "unalias a b"]))
         cases.append(Case("bseq", [env, ",".join(hx(o) for o in ops)], {"gen": "seq", "ops": tuple(ops)}))
